@@ -1,7 +1,7 @@
 (* C15 - simpliciality measures. *)
 From Coq Require Import String ZArith QArith List Bool.
 From XV Require Import Base.Label Base.LSet Base.ODict Base.Attr Base.Outcome Model.Hypergraph Model.Hodge
-  Model.Simpliciality Proofs.TrieProofs.
+  Model.Simpliciality Proofs.TrieProofs Proofs.SimplicialityMore.
 Import ListNotations.
 
 (* the prefix tree answers exactly: is the (sorted) word one of the (sorted) inserted words *)
@@ -9,6 +9,21 @@ Theorem C15_trie_search : forall ws w,
   tsearch (build_trie ws) w = existsb (fun w' => lbls_eqb (sort_simplex w) (sort_simplex w')) ws.
 Proof. exact trie_search. Qed.
 Print Assumptions C15_trie_search.
+
+(* an edge counts as a simplex exactly when each of its subsets of at least min_size nodes is one of
+   the edges (compared as sorted words), so the simplicial fraction is the share of eligible edges
+   all of whose eligible subsets are edges ... *)
+Theorem C15_is_simplex_spec : forall ws e k,
+  is_simplex (build_trie ws) e k = true <->
+  forall f, In f (subsets_between e k (length e)) -> exists w, In w ws /\ sort_simplex f = sort_simplex w.
+Proof. exact is_simplex_spec. Qed.
+Print Assumptions C15_is_simplex_spec.
+
+(* ... and lies in [0, 1] whenever it is defined *)
+Theorem C15_simplicial_fraction_range : forall k excl s q,
+  simplicial_fraction k excl s = Some q -> (0 <= q /\ q <= 1)%Q.
+Proof. exact simplicial_fraction_range. Qed.
+Print Assumptions C15_simplicial_fraction_range.
 
 Example C15_nonvacuous :
   let s := run [OAddEdgesFrom (EB1 [[LInt 1; LInt 2; LInt 3]; [LInt 1; LInt 2]; [LInt 3; LInt 4]]) []] hg_empty in
